@@ -3940,8 +3940,8 @@ theorem RT_spec {cfg : Sites} {sch : Schema} {black : Bool} {d : Ty} {m : Mask} 
       obtain ⟨n, rfl⟩ := hnd.2.2.2 key hkey
       refine ⟨rfl, Kids.get_of_mem hnd.2.2.1 hmem, ?_⟩
       intro hs
-      simp only [jsonSafeStep, bne_iff_ne, ne_eq] at hs
-      exact ⟨by simp [stepOfKind, Key.toJPath, JPath.toRaw], by simp [Key.toJPath, JPath.toRaw, hs], rfl⟩
+      simp only [jsonSafeStep, Bool.and_eq_true, bne_iff_ne, ne_eq] at hs
+      exact ⟨by simp [stepOfKind, Key.toJPath, JPath.toRaw], by simp [Key.toJPath, JPath.toRaw, hs.1], rfl⟩
     · intro key key' hk hk' he
       obtain ⟨n, rfl⟩ := hnd.2.2.2 key hk
       obtain ⟨n', rfl⟩ := hnd.2.2.2 key' hk'
